@@ -27,8 +27,8 @@ package dastard
 // and dastard (magic, version, write pointer, read pointer, buffer size, packet size). That
 // the harness reads it correctly is verified after Create, not assumed.
 //
-// Per run: packet size 128…8192 bytes (8192 = the firmware's), ring of 2–16 packets plus, in
-// half of the runs, 1…packetSize-1 extra bytes (so that packets straddle the wrap point at a
+// Per run: packet size 128…8200 bytes (8192 = the firmware's; powers of two, multiples of 8 that
+// are not, odd and prime: 1001, 257, 8191), ring of 2–64 packets plus, in half of the runs, 1…packetSize-1 extra bytes (so that packets straddle the wrap point at a
 // different place on every lap); 1–2 channel groups sharing the ring; packet period 0.2–40 ms
 // against the reader's 5 ms (sampling) and 50 ms (run) polls, so the ring runs empty in some
 // runs and is full nearly all the time in others. History before the first start: none, or
@@ -40,6 +40,11 @@ package dastard
 // exactly full, size-1 bytes) or writes packets in pieces (sized around the wrap point, with
 // pauses of up to more than a reader tick); bursts without pacing; writer stalls (<= 1.2 s);
 // reader stalls (scheduler fault, 60–900 ms).
+// One run in c18bBigOneIn ("big" runs, nominal and faulted) has a ring of DEED's real order of
+// magnitude (17–21 MB, a packet size that is not a power of two: 8000 … 16000 bytes) and a
+// DEED that hands over its DMA buffer in one go once or twice per session: 1700–2400 packets
+// between two reads, so that one ReadAllPackets finds more than 16 MiB. The history of such a
+// ring (an earlier session) is made by moving both pointers, not by writing the packets.
 //
 // The source's only producer is the real *AbacoRing made by NewAbacoRing and selected through
 // Configure(ActiveCards); the harness wraps it in an observing shim (c18bProducer) whose five
@@ -69,6 +74,8 @@ const (
 )
 
 const c18bTick = 50 * time.Millisecond // the reader's period (set by StartRun)
+
+const c18bBigOneIn = 50
 
 // c18bInStartRun is true while the harness is inside AbacoSource.StartRun(): the only
 // goroutine started from abaco.go in that window is the reader loop.
@@ -120,6 +127,7 @@ type c18bWorld struct {
 	delta   time.Duration
 
 	// geometry
+	big    bool // a ring of 17-21 MB and DMA flushes of more than 16 MiB
 	psize  int
 	npk    int // whole packets the ring's size has room for
 	extra  int // size - npk*psize
@@ -151,6 +159,8 @@ type c18bWorld struct {
 	lastWStall   int
 	nRStalls     int
 	burstLeft    int
+	nFlush       int  // big runs: DMA flushes so far (this session)
+	flushedRun   bool // big runs: a flush happened in the run phase of this session
 	staleWhole   int
 	stalePartial int
 	history      int
@@ -215,8 +225,14 @@ func newC18bWorld(env *simrt.Env) *c18bWorld {
 		w.delta = time.Microsecond
 	}
 
-	w.psize = c18bPick([]int{8192, 512, 256, 1024, 128, 1000, 4096, 200})
-	w.npk = c18bPick([]int{4, 2, 3, 8, 16, 5, 2 + simrt.Draw(15)})
+	w.big = simrt.Draw(c18bBigOneIn) == c18bBigOneIn-1
+	w.psize = c18bPick([]int{8192, 512, 256, 1024, 128, 1000, 4096, 200, 1001, 8191, 257, 520, 3000, 8200})
+	w.npk = c18bPick([]int{4, 2, 3, 8, 16, 5, 2 + simrt.Draw(15), 17 + simrt.Draw(48)})
+	if w.big {
+		w.psize = c18bPick([]int{8000, 10000, 12000, 16000, 8200, 8191, 9000, 8192})
+		w.npk = (1<<24)/w.psize + 20 + simrt.Draw(300)
+		simrt.Hit("big-ring")
+	}
 	if simrt.Draw(2) == 1 {
 		w.extra = c18bPick([]int{1, w.psize - 1, w.psize / 2, 8, 1 + simrt.Draw(w.psize-1)})
 	}
@@ -272,6 +288,9 @@ func newC18bWorld(env *simrt.Env) *c18bWorld {
 	}
 
 	w.period = time.Duration(c18bPick([]int{2000, 5000, 1000, 10000, 500, 20000, 200, 40000})) * time.Microsecond
+	if w.big {
+		w.period = time.Duration(c18bPick([]int{5000, 10000, 20000, 2000})) * time.Microsecond
+	}
 	w.poll = time.Duration(c18bPick([]int{2000, 5000, 1000, 10000})) * time.Microsecond
 	w.tsStep = uint64(w.period * time.Duration(ngroups) / (10 * time.Nanosecond))
 	w.runTicks = 6 + simrt.Draw(30)
@@ -335,8 +354,8 @@ func (w *c18bWorld) drawFaults() {
 func c18bFaultPick(menu []int) int { return menu[simrt.DrawFault(len(menu))] }
 
 func (w *c18bWorld) describe() string {
-	s := fmt.Sprintf("C18b world: ring of %d bytes = %d packets of %d + %d; %d group(s), %d frames/packet (header %d bytes), packet period %v, writer poll %v, writer mode %d, %d run ticks, history %d, %d session(s) (pause %v)",
-		w.size, w.npk, w.psize, w.extra, len(w.groups), w.fpp, w.hdrLen, w.period, w.poll, w.mode, w.runTicks, w.history, w.sessions, w.pause)
+	s := fmt.Sprintf("C18b world: big=%v ring of %d bytes = %d packets of %d + %d; %d group(s), %d frames/packet (header %d bytes), packet period %v, writer poll %v, writer mode %d, %d run ticks, history %d, %d session(s) (pause %v)",
+		w.big, w.size, w.npk, w.psize, w.extra, len(w.groups), w.fpp, w.hdrLen, w.period, w.poll, w.mode, w.runTicks, w.history, w.sessions, w.pause)
 	for _, g := range w.groups {
 		bits := 16
 		if g.wide {
@@ -512,11 +531,22 @@ func (w *c18bWorld) descW() int  { return int(binary.LittleEndian.Uint64(w.desc[
 func (w *c18bWorld) descR() int  { return int(binary.LittleEndian.Uint64(w.desc[c18bOffRead:])) }
 func (w *c18bWorld) queued() int { return w.wpos - w.descR() }
 
+// c18bPrevNames: the names of this process's previous run. A run that ends by a panic of a goroutine
+// of the program (not by w.fail) is abandoned where it stands and its deferred clean-up never runs; the
+// next run removes what it left in /dev/shm (a big ring is 20 MB of memory).
+var c18bPrevNames [2]string
+
 func (w *c18bWorld) createRing() {
 	debug.SetPanicOnFault(true)
+	if c18bPrevNames[0] != "" {
+		if old, _ := ringbuffer.NewRingBuffer(c18bPrevNames[0], c18bPrevNames[1]); old != nil {
+			old.Unlink() // (normally gone already)
+		}
+	}
 	card := -(1000000000 + os.Getpid()*1000 + w.env.Run%1000) // names only; never influences behaviour
 	w.rawName = fmt.Sprintf("xdma%d_c2h_0_buffer", card)
 	w.descName = fmt.Sprintf("xdma%d_c2h_0_description", card)
+	c18bPrevNames = [2]string{w.rawName, w.descName}
 	wb, _ := ringbuffer.NewRingBuffer(w.rawName, w.descName)
 	wb.Unlink() // leftovers of a killed earlier process with the same pid
 	if err := wb.Create(w.size); err != nil {
@@ -545,6 +575,9 @@ func (w *c18bWorld) createRing() {
 	w.dev = dev
 	if w.extra != 0 {
 		simrt.Hit("ring-size-not-multiple-of-packet")
+	}
+	if w.size%os.Getpagesize() != 0 {
+		simrt.Hit("ring-size-not-multiple-of-page")
 	}
 }
 
@@ -636,12 +669,22 @@ func (w *c18bWorld) makeHistory() {
 		// an earlier session: packets written and consumed (the earlier reader moved the read
 		// pointer on in whole packets), so that stream offsets are beyond the first lap
 		n := 1 + simrt.Draw(3*w.npk)
+		if w.big {
+			// (thousands of packets: the earlier session is represented by its end state, both pointers
+			// at packet n, and the packets it wrote and read are not written)
+			w.wpos, w.built = n*w.psize, n
+			w.doneAt = make([]time.Time, n)
+			binary.LittleEndian.PutUint64(w.desc[c18bOffWrite:], uint64(w.wpos))
+			binary.LittleEndian.PutUint64(w.desc[c18bOffRead:], uint64(w.wpos))
+			n = 0
+		}
 		for j := 0; j < n; j++ {
 			if w.put(w.psize) != w.psize {
 				w.fail("harness.history", "harness:history-write", "a packet did not fit into an empty ring")
 			}
 			binary.LittleEndian.PutUint64(w.desc[c18bOffRead:], uint64(w.wpos))
 		}
+		n = w.built
 		w.env.Op("history: %d packets written and consumed by an earlier session (pointers at %d)", n, w.wpos)
 	}
 	if w.staleWhole > 0 || w.stalePartial > 0 {
@@ -669,7 +712,7 @@ func (w *c18bWorld) writer() {
 	n := len(w.groups)
 	for {
 		if w.cur == nil {
-			if w.built >= 4000 {
+			if w.built >= 4000 && !w.big || w.built >= 16000 {
 				w.stop = true
 			}
 			if w.stop && w.built%n == 0 {
@@ -680,9 +723,38 @@ func (w *c18bWorld) writer() {
 				w.burstLeft--
 			} else {
 				time.Sleep(w.period)
+				if w.big && w.started && !w.stop && (w.nFlush < 2 || w.running && !w.flushedRun) {
+					// DEED hands over a DMA buffer of tens of MB in one go (as much as the ring has room for)
+					one := 8
+					if w.running && !w.flushedRun {
+						one = 3
+					}
+					if simrt.Draw(one) == 0 {
+						room := (w.size - 1 - w.queued()) / w.psize
+						n := c18bPick([]int{room, room - simrt.Draw(40), (1<<24)/w.psize + 1 + simrt.Draw(w.npk-(1<<24)/w.psize), room / 2})
+						if n > room {
+							n = room
+						}
+						if n > 1 {
+							w.burstLeft = n - 1
+							w.nFlush++
+							if w.running {
+								w.flushedRun = true
+							}
+							simrt.Hit("dma-flush")
+							if n*w.psize > 1<<24 {
+								simrt.Hit("dma-flush-over-16MiB")
+							}
+							w.env.Op("writer: DMA flush of %d packets (%d bytes), %d bytes buffered before", n, n*w.psize, w.queued())
+						}
+					}
+				}
 				if w.faulted && w.started && !w.stop {
 					if w.burstOn && simrt.Chance(1, 30) {
 						w.burstLeft = w.npk + simrt.DrawFault(w.npk+1)
+						if w.big {
+							w.burstLeft = 20 + simrt.DrawFault(200) // (the DMA flushes are this world's bursts)
+						}
 						simrt.Fault("writer-burst")
 						w.env.Op("writer: burst of %d packets", w.burstLeft)
 					}
@@ -697,7 +769,11 @@ func (w *c18bWorld) writer() {
 				}
 			}
 		}
-		switch w.mode {
+		mode := w.mode
+		if w.big && w.burstLeft > 0 && mode == 2 {
+			mode = 1 // a DMA transfer is not written in pieces with pauses
+		}
+		switch mode {
 		case 0: // whole packets, only when they fit
 			want := w.psize - w.curOff
 			if w.wb.BytesWriteable() >= want {
@@ -927,6 +1003,12 @@ func (p *c18bProducer) ReadAllPackets() ([]*packets.Packet, error) {
 		off := r0 % w.size
 		if off+avail*w.psize > w.size {
 			simrt.Hit("wrap-during-producer-read")
+			if pg := os.Getpagesize(); w.size%pg != 0 {
+				simrt.Hit("wrap-during-producer-read-ring-not-page-multiple")
+				if off+avail*w.psize-w.size <= pg-w.size%pg {
+					simrt.Hit("wrapped-producer-read-continuation-shorter-than-page-slack")
+				}
+			}
 			if (w.size-off)%w.psize != 0 {
 				simrt.Hit("packet-split-across-wrap-read")
 			}
@@ -941,6 +1023,15 @@ func (p *c18bProducer) ReadAllPackets() ([]*packets.Packet, error) {
 	}
 	if q >= w.size-1 {
 		simrt.Hit("read-from-exactly-full-ring")
+	}
+	if avail*w.psize > 1<<24 {
+		simrt.Hit("producer-read-of-more-than-16MiB")
+		if w.psize&(w.psize-1) != 0 {
+			simrt.Hit("producer-read-of-more-than-16MiB-packet-size-not-a-power-of-two")
+		}
+		if r0%w.size+avail*w.psize > w.size {
+			simrt.Hit("producer-read-of-more-than-16MiB-wraps")
+		}
 	}
 	if avail >= 2 {
 		simrt.Hit("read-returns-several-packets")
@@ -971,6 +1062,7 @@ func (w *c18bWorld) startSource() {
 		g.base, g.lastSampled, g.lastDeliv = -1, -1, -1
 	}
 	w.next, w.running, w.sessDeliv, w.lastDelivAt = -1, false, 0, time.Time{}
+	w.nFlush, w.flushedRun = 0, false
 	card := w.dev.ringnum
 	as := w.as
 	if as == nil {
